@@ -79,6 +79,7 @@ type c06Case struct {
 	UState   string   `json:"ustate"`
 	Off      int      `json:"off"`
 	RightKey bool     `json:"rightKey"`
+	Cache    string   `json:"cache"` // history of the UID at the server: none | idle | busy (C07)
 	Tampers  []string `json:"tampers"`
 	Verdict  string   `json:"verdict"`
 	API      bool     `json:"api"`
